@@ -76,6 +76,10 @@ func scenarios(thorough bool) []scenario {
 		mk("tso1|id1", []call{t1}, []call{i1}),
 		mk("tso1,tso1|tso1", []call{t1, t1}, []call{t1}),
 		mk("tso1|tso1|tso1", []call{t1}, []call{t1}, []call{t1}),
+		// mixed kinds on three threads: a checkpoint sample can be older in one counter and
+		// newer in the other than what is already on disk
+		mk("tso1|id1|tso1", []call{t1}, []call{i1}, []call{t1}),
+		mk("id1|tso1|id1", []call{i1}, []call{t1}, []call{i1}),
 	}
 	if thorough {
 		s = append(s,
